@@ -229,3 +229,23 @@ def r5_flat_map(text):
 
 RULES['R13'] = r13_return_vec
 RULES['R5'] = r5_flat_map
+
+
+def r14_all(text):
+    """X.into_iter().all(|v| E)  =>  { let mut __all = true; for v in X.into_iter() { if !(E) { __all = false; break; } } __all }
+    (Iterator::all short-circuits at the first false; E is side-effect free: map lookups and comparisons)."""
+    n = 0
+    while True:
+        m = rsx.mask(text)
+        mm = re.search(r'(\b[a-z_]\w*)\s*\.\s*into_iter\(\)\s*\.\s*all\(\s*\|(\w+)\|\s*', m)
+        if not mm:
+            return text, n
+        op = m.rfind('(', 0, mm.end())
+        cp = rsx.match_close(m, op, '(', ')')
+        body = text[mm.end():cp].strip()
+        rep = '{ let mut __all = true; for %s in %s.into_iter() { if !(%s) { __all = false; break; } } __all }' % (mm.group(2), mm.group(1), body)
+        text = text[:mm.start()] + rep + text[cp + 1:]
+        n += 1
+
+
+RULES['R14'] = r14_all
